@@ -196,19 +196,19 @@ fn gen_c01(_p: &Pools, rng: &mut Rng, pb: &mut PB) {
 fn gen_small_rot(p: &Pools, rng: &mut Rng, pb: &mut PB) {
     if rng.chance(1, 5) {
         let ty = *rng.pick(&["Basis2", "Matrix2"]);
-        let a = [pb.load(t(ty)), pb.load(t(*rng.pick(&["direct", "invert", "compose"]))), pb.load(Val::V2(uv2(p, rng))), pb.load(Val::I(rng.range(0, 3)))];
+        let a = [pb.load(t(ty)), pb.load(t(*rng.pick(&["direct", "invert", "compose"]))), pb.load(Val::V2(uv2(p, rng))), pb.load(Val::I(rng.range(0, 9)))];
         pb.call("small_rot_proj", "m", &a);
         return;
     }
     let ty = *rng.pick(ROT3);
     let routes: &[&str] = match ty {
-        "Quaternion" => &["direct", "from_angle", "rotate_vector", "invert", "compose", "via_mat3", "via_basis3", "via_mat4"],
-        "Matrix3" => &["direct", "from_angle", "invert", "compose", "via_quat", "via_basis3", "via_mat4"],
-        "Basis3" => &["direct", "from_angle", "rotate_vector", "invert", "compose", "via_quat", "via_mat3"],
-        _ => &["direct", "from_angle", "invert", "compose", "via_quat"],
+        "Quaternion" => &["direct", "from_angle", "euler", "to_euler", "rotate_vector", "invert", "compose", "via_mat3", "via_basis3", "via_mat4"],
+        "Matrix3" => &["direct", "from_angle", "euler", "invert", "compose", "via_quat", "via_basis3", "via_mat4"],
+        "Basis3" => &["direct", "from_angle", "euler", "rotate_vector", "invert", "compose", "via_quat", "via_mat3"],
+        _ => &["direct", "from_angle", "euler", "invert", "compose", "via_quat"],
     };
     let route = *rng.pick(routes);
-    let (n, v) = if route == "from_angle" {
+    let (n, v) = if route == "from_angle" || route == "euler" || route == "to_euler" {
         let z = q(0, 1); let o = q(1, 1);
         let e = [Vector3::new(o, z, z), Vector3::new(z, o, z), Vector3::new(z, z, o)];
         let i = rng.below(3);
@@ -217,7 +217,9 @@ fn gen_small_rot(p: &Pools, rng: &mut Rng, pb: &mut PB) {
         let v = match i { 0 => Vector3::new(z, u.x, u.y), 1 => Vector3::new(u.x, z, u.y), _ => Vector3::new(u.x, u.y, z) };
         (e[i], v)
     } else { let (e1, _e2, e3) = frame(p, rng); (e3, e1) };
-    let a = [pb.load(t(ty)), pb.load(t(route)), pb.load(Val::V3(n)), pb.load(Val::V3(v)), pb.load(Val::I(rng.range(0, 3)))];
+    // Euler extraction is exact only outside the gimbal-lock cone: no angle next to a quarter turn there (index 7)
+    let dc = loop { let i = rng.range(0, 9); if !(route == "to_euler" && i == 7) { break i; } };
+    let a = [pb.load(t(ty)), pb.load(t(route)), pb.load(Val::V3(n)), pb.load(Val::V3(v)), pb.load(Val::I(dc))];
     pb.call("small_rot_proj", "m", &a);
 }
 
@@ -389,6 +391,7 @@ fn gimbal_pool() -> Vec<[i128; 5]> {
 }
 thread_local! { static GIMBAL: Vec<[i128; 5]> = gimbal_pool(); }
 fn gen_c07(p: &Pools, rng: &mut Rng, pb: &mut PB) {
+    if rng.chance(1, 8) { gen_small_rot(p, rng, pb); return; }
     if rng.chance(1, 3) {
         // pipeline C: extraction on arbitrary rational unit quaternions, including the inside of the gimbal-lock cone
         let e = if rng.chance(1, 2) { GIMBAL.with(|g| if g.is_empty() { p.u4[0] } else { g[rng.below(g.len())] }) } else { p.u4[rng.below(p.u4.len())] };
@@ -1372,6 +1375,137 @@ fn cover_c19(out: &mut Vec<String>, pid: &mut u64, full: bool) {
     }
 }
 
+/// systematic part of the small-angle projections: every (representation, route, angle of the table), each about a
+/// coordinate axis and about an oblique rational axis
+fn cover_small_rot(p: &Pools, rng: &mut Rng, out: &mut Vec<String>, pid: &mut u64, euler_only: bool) {
+    let all: &[(&str, &[&str])] = &[
+        ("Quaternion", &["direct", "from_angle", "euler", "to_euler", "rotate_vector", "invert", "compose", "via_mat3", "via_basis3", "via_mat4"]),
+        ("Matrix3", &["direct", "from_angle", "euler", "invert", "compose", "via_quat", "via_basis3", "via_mat4"]),
+        ("Basis3", &["direct", "from_angle", "euler", "rotate_vector", "invert", "compose", "via_quat", "via_mat3"]),
+        ("Matrix4", &["direct", "from_angle", "euler", "invert", "compose", "via_quat"]),
+    ];
+    let (z, o) = (q(0, 1), q(1, 1));
+    let e = [Vector3::new(o, z, z), Vector3::new(z, o, z), Vector3::new(z, z, o)];
+    let mut emit = |a: Vec<V>, out: &mut Vec<String>| {
+        let mut pb = PB::new();
+        let regs: Vec<usize> = a.into_iter().map(|v| pb.load(v)).collect();
+        pb.call("small_rot_proj", "m", &regs);
+        *pid += 1;
+        if let Some(s) = pb.finish(*pid, &["Q", "f64"]) { out.push(s); }
+    };
+    for (ty, routes) in all {
+        for route in routes.iter() {
+            let on_axis = matches!(*route, "from_angle" | "euler" | "to_euler");
+            if euler_only && !matches!(*route, "euler" | "to_euler") { continue; }
+            for dc in 0..10i64 {
+                if *route == "to_euler" && dc == 7 { continue; }
+                // about a coordinate axis
+                let i = rng.below(3);
+                let u = uv2(p, rng);
+                let v = match i { 0 => Vector3::new(z, u.x, u.y), 1 => Vector3::new(u.x, z, u.y), _ => Vector3::new(u.x, u.y, z) };
+                emit(vec![t(ty), t(route), Val::V3(e[i]), Val::V3(v), Val::I(dc)], out);
+                if !on_axis {
+                    let (e1, _e2, e3) = frame(p, rng);
+                    emit(vec![t(ty), t(route), Val::V3(e3), Val::V3(e1), Val::I(dc)], out);
+                }
+            }
+        }
+    }
+    if !euler_only {
+        for ty in ["Basis2", "Matrix2"] { for route in ["direct", "invert", "compose"] { for dc in 0..10i64 {
+            emit(vec![t(ty), t(route), Val::V2(uv2(p, rng)), Val::I(dc)], out);
+        } } }
+    }
+}
+
+/// one single-call program (pipeline C sweeps)
+fn emit1(op: &str, a: Vec<V>, out: &mut Vec<String>, pid: &mut u64) {
+    let mut pb = PB::new();
+    let regs: Vec<usize> = a.into_iter().map(|v| pb.load(v)).collect();
+    pb.call(op, "m", &regs);
+    *pid += 1;
+    if let Some(s) = pb.finish(*pid, &["Q", "f64"]) { out.push(s); }
+}
+/// systematic parts of the other native-arithmetic projections: every combination of their small tables
+fn cover_proj(profile: &str, p: &Pools, rng: &mut Rng, out: &mut Vec<String>, pid: &mut u64) {
+    match profile {
+        "C15" => {
+            for kind in ["quat", "basis3", "arc"] { for anti in [false, true] {
+                let top = if kind == "arc" || anti { 2 } else { 3 };
+                for dc in 0..=top { for _ in 0..2 {
+                    let (e1, _e2, e3) = frame(p, rng);
+                    let sc = |rng: &mut Rng| if kind == "arc" { *rng.pick(&[q(1, 1), q(1, 1000), q(1000, 1), q(7, 2), q(1, 40), q(250, 1)]) } else { q(1, 1) };
+                    emit1("arc_proj", vec![t(kind), Val::V3(e1), Val::V3(e3), Val::I(dc), Val::B(anti), vs(sc(rng)), vs(sc(rng))], out, pid);
+                } }
+            } }
+            for dc in 0..4 { for anti in [false, true] { for cw in [false, true] {
+                emit1("arc_proj", vec![t("basis2"), Val::V2(uv2(p, rng)), Val::I(dc), Val::B(anti), Val::B(cw)], out, pid);
+            } } }
+        }
+        "C11" => {
+            for ty in 0..4 { for gc in 0..6 { for neg in [false, true] {
+                let x = match ty { 0 => Val::V2(uv2(p, rng)), 1 => Val::V3(uv3(p, rng)),
+                                   2 => { let u = uq(p, rng); Val::V4(Vector4::new(u.s, u.v.x, u.v.y, u.v.z)) } _ => Val::Q(uq(p, rng)) };
+                emit1("norm_proj", vec![x, Val::I(gc), Val::B(neg)], out, pid);
+            } } }
+        }
+        "C13" => {
+            for m in [7i128, 100, 5000, 100_000, 1_000_000, 3_000_000] { for sg in [1i128, -1] {
+                emit1("trig_big_proj", vec![vs(q(sg * (3 * m + 1), 3))], out, pid);
+            } }
+        }
+        "C08" => {
+            for kind in ["Matrix4", "Matrix4_invert", "Matrix3", "Matrix3_invert", "DecQ", "Dec3", "DecQ_vector"] {
+                let mut scales = vec![q(3, 1_000_000), q(-5, 2_000_000), q(1, 100_000), q(-1, 10_000), q(1, 250)];
+                if kind.starts_with("Matrix") { scales.push(q(1, 10_000_000)); scales.push(q(-1, 100_000_000)); }
+                for sc in scales {
+                    let nz3 = |rng: &mut Rng| Vector3::new(small_nz(rng), small_nz(rng), small_nz(rng));
+                    emit1("tiny_inv_proj", vec![t(kind), vs(sc), Val::Q(uq(p, rng)), Val::V3(nz3(rng)), Val::V3(nz3(rng))], out, pid);
+                }
+            }
+        }
+        "C10" => {
+            for ctor in ["perspective", "perspective_fov", "frustum", "perspective_struct", "ortho", "planar"] {
+                for n in [q(1, 2), q(1, 1), q(3, 1), q(10, 1), q(250, 1), q(1, 16)] { for gc in 0..4 {
+                    emit1("slab_proj", vec![t(ctor), vs(n), Val::I(gc)], out, pid);
+                } }
+            }
+        }
+        "C09" => {
+            // every look_* entry point with up and dir over nine orders of magnitude
+            let entries: Vec<(&str, &str, &str)> = vec![
+                ("mat3_look_to", "lh", ""), ("mat3_look_to", "rh", ""), ("mat3_look_to", "dep", ""),
+                ("mat4_look_to", "lh", ""), ("mat4_look_to", "rh", ""), ("mat4_look_to", "dep", ""),
+                ("mat4_look_at", "lh", ""), ("mat4_look_at", "rh", ""), ("mat4_look_at", "dep", ""),
+                ("rot_look_at", "m", "Quaternion"), ("rot_look_at", "m", "Basis3"),
+                ("tf_look_at", "dep", "Matrix4"), ("tf_look_at", "rh", "Matrix4"), ("tf_look_at", "lh", "Matrix4"),
+                ("tf_look_at", "dep", "Matrix3_3"), ("tf_look_at", "rh", "Matrix3_3"), ("tf_look_at", "lh", "Matrix3_3"),
+                ("tf_look_at", "dep", "DecQ"), ("tf_look_at", "rh", "DecQ"), ("tf_look_at", "lh", "DecQ"),
+                ("tf_look_at", "dep", "Dec3"), ("tf_look_at", "rh", "Dec3"), ("tf_look_at", "lh", "Dec3")];
+            for (inner, form, ty) in entries {
+                for us in [q(1, 1_000_000_000), q(1, 100_000_000), q(1, 10_000), q(1000, 1)] {
+                    for ds in [q(1, 1), q(1, 1000), q(1000, 1)] {
+                        let iv = |rng: &mut Rng| Vector3::new(Q::int(rng.range(-6, 6) as i128), Q::int(rng.range(-6, 6) as i128), Q::int(rng.range(-6, 6) as i128));
+                        let (d0, u0) = loop { let (d0, u0) = (iv(rng), iv(rng)); let c = d0.cross(u0); if c.x.n != 0 || c.y.n != 0 || c.z.n != 0 { break (d0, u0); } };
+                        let (dir, up) = (d0 * ds, u0 * us);
+                        let eye = Point3::from_vec(iv(rng));
+                        let mut a = vec![t(inner), t(form)];
+                        match inner {
+                            "mat3_look_to" => { a.push(Val::V3(dir)); a.push(Val::V3(up)); }
+                            "mat4_look_to" => { a.push(Val::P3(eye)); a.push(Val::V3(dir)); a.push(Val::V3(up)); }
+                            "mat4_look_at" => { a.push(Val::P3(eye)); a.push(Val::P3(eye + dir)); a.push(Val::V3(up)); }
+                            "rot_look_at" => { a.push(t(ty)); a.push(Val::V3(dir)); a.push(Val::V3(up)); }
+                            _ => { a.push(t(ty)); a.push(Val::P3(eye)); a.push(Val::P3(eye + dir)); a.push(Val::V3(up)); }
+                        }
+                        emit1("look_proj", a, out, pid);
+                    }
+                }
+            }
+        }
+        _ => {}
+    }
+}
+
 pub fn drive2(profile: &str, seed: u64, count: usize) -> Vec<String> {
     let gen: fn(&Pools, &mut Rng, &mut PB) = match profile {
         "C01" => gen_c01, "C05" => gen_c05, "C06" => gen_c06, "C07" => gen_c07, "C08" => gen_c08, "C09" => gen_c09, "C10" => gen_c10,
@@ -1400,5 +1534,8 @@ pub fn drive2(profile: &str, seed: u64, count: usize) -> Vec<String> {
         if let Some(s) = pb.finish(pid, scs) { out.push(s); }
     }
     if profile == "C19" { cover_c19(&mut out, &mut pid, count >= 10000); }
+    if profile == "C05" || profile == "C06" { cover_small_rot(&p, &mut rng, &mut out, &mut pid, false); }
+    if profile == "C07" { cover_small_rot(&p, &mut rng, &mut out, &mut pid, true); }
+    cover_proj(profile, &p, &mut rng, &mut out, &mut pid);
     out
 }
